@@ -21,6 +21,8 @@ pub struct Outcome {
     pub content_size: u64,
     pub checksum_from_data: Option<u32>,
     pub checksum_calculated: Option<u32>,
+    /// blocks_decoded() at the end (a counter that must not survive from an earlier frame)
+    pub blocks: usize,
 }
 impl Outcome {
     pub fn is_ok_with(&self, want: &[u8]) -> bool {
@@ -55,7 +57,7 @@ impl Read for Trickle<'_> {
 }
 
 fn finish(dec: &FrameDecoder, end: End, delivered: Vec<u8>) -> Outcome {
-    Outcome { end, delivered, consumed: Some(dec.bytes_read_from_source()), finished: dec.is_finished(), content_size: dec.content_size(), checksum_from_data: dec.get_checksum_from_data(), checksum_calculated: dec.get_calculated_checksum() }
+    Outcome { end, delivered, consumed: Some(dec.bytes_read_from_source()), finished: dec.is_finished(), content_size: dec.content_size(), checksum_from_data: dec.get_checksum_from_data(), checksum_calculated: dec.get_calculated_checksum(), blocks: dec.blocks_decoded() }
 }
 
 /// run one front end over `data` on `dec` (possibly a reused decoder). `limit` bounds the delivered bytes so
